@@ -158,13 +158,8 @@ func (c *waterCase) line() string {
 	return sb.String()
 }
 
-// runWaterImpl calls the real hermes.Water on the case.
-func runWaterImpl(c *waterCase) (o waterOut, panicked string) {
-	defer func() {
-		if r := recover(); r != nil {
-			panicked = fmt.Sprint(r)
-		}
-	}()
+// newWaterState builds the state one call of hermes.Water reads.
+func newWaterState(c *waterCase) (gp *hermes.GlobalVarsMain, lp *hermes.WaterSharedVars, subd int) {
 	g := hermes.NewGlobalVarsMain()
 	var l hermes.WaterSharedVars
 	g.N = c.N
@@ -176,7 +171,7 @@ func runWaterImpl(c *waterCase) (o waterOut, panicked string) {
 	g.OUTN = c.Outn
 	l.GWAUF = c.Gwauf
 	g.Q1[0] = c.Q0prev
-	subd := 1
+	subd = 1
 	if !c.First {
 		subd = 2
 	}
@@ -199,7 +194,19 @@ func runWaterImpl(c *waterCase) (o waterOut, panicked string) {
 		g.CAPS[i] = c.Caps[i]
 	}
 	g.SAAT[0] = 1 << 30 // zeit > SAAT false: crop accumulators untouched
-	hermes.Water(c.Wdt, subd, 1000, &g, &l)
+	return &g, &l, subd
+}
+
+// runWaterImpl calls the real hermes.Water on the case.
+func runWaterImpl(c *waterCase) (o waterOut, panicked string) {
+	defer func() {
+		if r := recover(); r != nil {
+			panicked = fmt.Sprint(r)
+		}
+	}()
+	gp, lp, subd := newWaterState(c)
+	hermes.Water(c.Wdt, subd, 1000, gp, lp)
+	g, l := *gp, *lp
 	o.Wg1 = append(o.Wg1, g.WG[1][:c.N]...)
 	o.Tp = append(o.Tp, g.TP[:c.N]...)
 	o.Ev = append(o.Ev, l.EV[:c.N]...)
